@@ -540,6 +540,32 @@ impl Wal {
         Ok(offset)
     }
 
+    /// Starts a transaction scope: if the returned guard is dropped without `commit()`, the
+    /// log is cut back to where the scope began, so a failed append / fsync leaves no partial
+    /// record or unacknowledged transaction behind that later appends would build on.
+    pub fn tx_scope(&mut self) -> Result<WalTxScope<'_>> {
+        let Some(file) = self.file.as_mut() else {
+            return Err(Error::WalProtocol("wal file is closed"));
+        };
+        let start = file.metadata()?.len();
+        Ok(WalTxScope {
+            wal: self,
+            start,
+            committed: false,
+        })
+    }
+
+    fn truncate_to(&mut self, len: u64) -> Result<()> {
+        let Some(file) = self.file.as_mut() else {
+            return Err(Error::WalProtocol("wal file is closed"));
+        };
+        if file.metadata()?.len() > len {
+            file.set_len(len)?;
+            file.sync_data()?;
+        }
+        Ok(())
+    }
+
     pub fn fsync(&mut self) -> Result<()> {
         let Some(file) = self.file.as_mut() else {
             return Err(Error::WalProtocol("wal file is closed"));
@@ -708,6 +734,42 @@ impl Wal {
             }
         }
         Ok(last)
+    }
+}
+
+/// See [`Wal::tx_scope`].
+pub struct WalTxScope<'a> {
+    wal: &'a mut Wal,
+    start: u64,
+    committed: bool,
+}
+
+impl WalTxScope<'_> {
+    /// The transaction is durable; keep it.
+    pub fn commit(mut self) {
+        self.committed = true;
+    }
+}
+
+impl std::ops::Deref for WalTxScope<'_> {
+    type Target = Wal;
+    fn deref(&self) -> &Wal {
+        self.wal
+    }
+}
+
+impl std::ops::DerefMut for WalTxScope<'_> {
+    fn deref_mut(&mut self) -> &mut Wal {
+        self.wal
+    }
+}
+
+impl Drop for WalTxScope<'_> {
+    fn drop(&mut self) {
+        if !self.committed {
+            // Best effort: the caller is already reporting the original error.
+            let _ = self.wal.truncate_to(self.start);
+        }
     }
 }
 
